@@ -149,6 +149,11 @@ func (c11) Run(tp *Tape, opt RunOpt) *RunOut {
 		cfg.StarveFrom = tp.Draw(LaneWork, 30)
 		cfg.StarveLen = 5 + tp.Draw(LaneWork, 100)
 	}
+	if tp.Chance(LaneWork, 1, 4) {
+		// PCT policy instead of the random walk: priorities with 0-2 change points
+		cfg.PCTDepth = 1 + tp.Draw(LaneWork, 3)
+		cfg.PCTSpan = []int{30, 120, 600}[tp.Draw(LaneWork, 3)]
+	}
 	s := NewSim(tp, cfg)
 	h := &Harness{S: s}
 	e := c11Env(h)
@@ -329,7 +334,7 @@ func (c11) Run(tp *Tape, opt RunOpt) *RunOut {
 	}
 	out.Nontrivial = len(s.tasks) >= 2 && s.Switches >= 4
 	if opt.Full {
-		out.Sample = map[string]interface{}{"program": rendering, "cfg": map[string]int{"Q": cfg.Q, "StarveID": cfg.StarveID}}
+		out.Sample = map[string]interface{}{"program": rendering, "cfg": map[string]int{"Q": cfg.Q, "StarveID": cfg.StarveID, "PCTDepth": cfg.PCTDepth}}
 	}
 	return out
 }
